@@ -331,7 +331,10 @@ func limbCount(p *Program, pk string) int {
 // " @{fact;fact}". Effects and calls are compared together with the guards they sit under, so
 // moving a store above the test that used to protect it changes its descriptor even though the
 // multiset of plain statements is unchanged.
-func blockContexts(fn *ssa.Function) []string {
+func blockContexts(fn *ssa.Function) []string { return blockContextsN(fn, 4) }
+
+// blockContextsN: at most max facts per block (0 = all).
+func blockContextsN(fn *ssa.Function, max int) []string {
 	out := make([]string, len(fn.Blocks))
 	type ef struct {
 		target *ssa.BasicBlock
@@ -366,8 +369,8 @@ func blockContexts(fn *ssa.Function) []string {
 		}
 		if len(fs) > 0 {
 			sort.Strings(fs)
-			if len(fs) > 4 {
-				fs = fs[:4]
+			if max > 0 && len(fs) > max {
+				fs = fs[:max]
 			}
 			out[b.Index] = " @{" + strings.Join(fs, ";") + "}"
 		}
